@@ -1520,7 +1520,12 @@ def splice_fn(item_text, ann, log):
             wh = ' ' + ty[mw.start():]
             ty = ty[:mw.start()].strip()
         prefix = prefix[:idx] + '-> (%s: %s)%s\n' % (rn, ty, wh)
-    attrs = ''.join(a + '\n' for a in ann.get('attr', []))
+    attr_list = list(ann.get('attr', []))
+    # loops see the facts established before them (about variables they do not modify): hoisting a pure expression out
+    # of a loop, or naming a temporary before it, then does not break an invariant-free fact (unit opt-out: rule NOLI)
+    if rs.loops_in(body) and not ann.get('noaxioms') and 'NOLI' not in _ACTIVE_RULES and not any('loop_isolation' in a for a in attr_list):
+        attr_list.append('#[verifier::loop_isolation(false)]')
+    attrs = ''.join(a + '\n' for a in attr_list)
     if lost:
         log.append(('LOST-ANCHOR', lost))
     return attrs + prefix.rstrip() + '\n' + spec + '\n' + body + rest
